@@ -116,11 +116,15 @@ def verify_function(ctx, c, section, only_prop):
         section["trusted"].append("contract of %s assumed, body not verified: %s" % (c.qual, c.d.get("why", "")))
         return
     t0 = time.time()
-    spec = ctx.specs.get(c.spec)
-    if spec is None:
+    spec = ctx.specs.get(c.spec) if c.spec else None
+    if spec is None and c.mode != "post":
         section["errors"].append("spec function %s of %s missing in the sidecar" % (c.spec, c.qual))
         return
-    ls = Lockstep(ctx, c)
+    if c.mode == "post":
+        from .postcheck import PostCheck
+        ls = PostCheck(ctx, c)
+    else:
+        ls = Lockstep(ctx, c)
     try:
         ls.run(real, spec)
     except Unsupported as u:
